@@ -215,7 +215,17 @@ struct Expect {
     const ModelTree& src;      // source particles (same as target tree for the single-tree case)
     Expect(const gf::Params& p, const ModelTree& s, bool per, int tag) : P(p), dim(s.dim), H(s.H), periodic(per), tagSrc(tag), src(s){ prepare(); }
 
-    Coord origin(int level, const Coord& c) const { Coord r{{0,0,0,0}}; for(int d = 0 ; d < dim ; ++d) r[d] = c[d] << (H - 1 - level); return r; }
+    // expansion origin of cell (level, c), in leaf units: one cell width below the lower corner of the cell. Level dependent on purpose: the
+    // translation between a parent and ANY of its children (also child 0) is then non zero, so that a wrong level argument of M2M / L2L
+    // always changes the value (with the lower corner as origin, child 0 shares the origin of its parent).
+    Coord origin(int level, const Coord& c) const { Coord r{{0,0,0,0}}; for(int d = 0 ; d < dim ; ++d) r[d] = (c[d] - 1) * (1L << (H - 1 - level)); return r; }
+    // far field as a particle of leaf T receives it: the local of the leaf cell, moved from the origin of the leaf to the particle
+    gf::Val farAtLeaf(const Coord& T, int lstop) const {
+        const gf::Val l = local(H - 1, T, lstop);
+        Coord rel{{0,0,0,0}}; for(int d = 0 ; d < dim ; ++d) rel[d] = -1;
+        uint64_t f[gf::NEVAL]; for(int k = 0 ; k < gf::NEVAL ; ++k) f[k] = P.shift(k, rel, dim);
+        gf::Val v = gf::zero(); gf::addShifted(v, l, f); return v;
+    }
 
     // sum over source particles in leaf S of w_j * A^(S + add - ref)
     gf::Val leafSum(const Coord& S, const Coord& unwrappedOriginOfS, const Coord& ref, long skipParticle = -1) const {
@@ -292,7 +302,7 @@ struct Expect {
     // what a full run (working levels >= lstop) delivers to a particle in leaf T
     gf::Val particle(const Coord& T, long selfIndex, int lstop, bool far = true, bool near = true) const {
         gf::Val v = gf::zero();
-        if(far && H > std::max(lstop, 0)) gf::addPlain(v, local(H - 1, T, lstop));
+        if(far && H > std::max(lstop, 0)) gf::addPlain(v, farAtLeaf(T, lstop));
         if(near) gf::addPlain(v, nearField(T, selfIndex));
         return v;
     }
